@@ -96,6 +96,24 @@ def _for_tlc(c):
     return {"in": c["in"], "out": dict(err=o["err"], ok=o["ok"], pts=o["pts"], edges=o["edges"], map=o["map"])}
 
 
+def _report(ctx, per, clause, record, detail):
+    """ctx.violation, but at most CAP replay files per clause (known findings are always routed through so
+    that their hits are counted)."""
+    known = False
+    for k in ctx.known:
+        fn = ctx.matchers.get(k.get("matcher"))
+        try:
+            known = known or (k.get("status", "known") == "known" and fn is not None and bool(fn({"clause": clause, **record})))
+        except Exception:
+            pass
+    if not known:
+        per[clause] = per.get(clause, 0) + 1
+        if per[clause] > CAP:
+            ctx.extra["violations_not_written"] = ctx.extra.get("violations_not_written", 0) + 1
+            return
+    ctx.violation(clause, record, detail)
+
+
 def _judge(ctx, cases, tag):
     recs = ctx.judge("J_SegSplit", [_for_tlc(c) for c in cases], CLAUSES, tag=tag, workers=WORKERS, timeout=1500)
     per, unfit = {}, set()
@@ -107,12 +125,8 @@ def _judge(ctx, cases, tag):
         if "clause" not in v:
             continue
         case = cases[v["case"] - 1]
-        per[v["clause"]] = per.get(v["clause"], 0) + 1
-        if per[v["clause"]] > CAP and not ctx.known:
-            ctx.extra["violations_not_written"] = ctx.extra.get("violations_not_written", 0) + 1
-            continue
         o = case["out"]
-        ctx.violation(v["clause"], case,
+        _report(ctx, per, v["clause"], case,
                       (f"segments {case['segs']} (p={case['in']['pts']}, e={[(s['s'] - 1, s['e'] - 1) for s in case['in']['segs']]}) -> "
                        f"err={o['err']!r} points={[[a[0] / a[1], b[0] / b[1]] for a, b in o['pts']]} "
                        f"edges={[(e['s'] - 1, e['e'] - 1) for e in o['edges']]} map={[m - 1 for m in o['map']]}")[:500])
